@@ -91,3 +91,16 @@ CHECKS["C06"] = {
     "assumptions": ["etcd/raft MemoryStorage is the reference semantics of the storage contract", "Save(hs, ents, snap) corresponds to ApplySnapshot; Append; SetHardState"],
     "min": {"any": {"comparisons": 3000, "snapshot_installs": 100, "reopens": 100}},
 }
+
+CHECKS["C15"] = {
+    "pkg": "./c15", "run": "^TestC15$", "level": "exploration",
+    "technique": "runtime monitor / sanitizer: three kernel implementations on identical inputs with a float64-anchored tolerance, inputs mmap'ed against PROT_NONE guard pages at both ends (faults observed via SetPanicOnFault)",
+    "level_text": "Differential monitor of the AVX and SSE kernels against the portable kernels on identical inputs placed in guard-paged arenas (vector ending exactly at a PROT_NONE page, starting exactly after one, and start offsets 0..7 floats), over every length 1..4096 (thorough; quick: 1..300 and every residue mod 32 below 512/1024/2048/4096), 10 value classes and 3 metrics, plus symmetry / non-negativity / d(a,a)=0 for all three implementations.",
+    "level_note": "Guard pages observe only adjacent out-of-bounds accesses; the deciding tolerance is anchored in float64 arithmetic (4(n+4)2^-24 of the sum of absolute terms, doubled); needs a CPU with AVX and SSE (otherwise inconclusive).",
+    "shards": {"quick": 8, "thorough": 16},
+    "timeout": {"quick": 900, "thorough": 3000},
+    "exhaustive": "thorough: all lengths 1..4096; start-offset pairs 0..7 x 0..7 for lengths <= 64",
+    "rule": "case = (length, placement of a, placement of b); each case runs up to 10 value classes (zeros, small ints, uniform, normal*1e3, subnormals, 1e-25..1e-19, 1e10..1e18, 1e19..3e38, one huge among tiny, one-hot on a tail position) x 3 metrics x 3 implementations; every case is non-trivial; distinct = (length, placements)",
+    "assumptions": ["Go's SetPanicOnFault turns SIGSEGV/SIGBUS inside the assembly kernels into recoverable panics (confirmed)", "float64 evaluation is the numeric anchor"],
+    "min": {"any": {"calls_native": 10000, "calls_avx": 10000, "calls_sse": 10000}},
+}
